@@ -25,11 +25,132 @@ package modules
 //@ func IsPanic
 //@   ensures r0 == typeIs(err, *ModuleError)
 
-// (checkIfStopComplete is under contract for C05; here only its frame matters)
+// ---- C05: stopping a module waits for all of its managed work (protocol obligations, A-seq)
+
+// all conditions under which the completion channel may be closed
+//@ spec stopDue(m *Module) bool = isSet(m.stopFlag) && !isSet(m.ctrlFuncRunning) && deref(m.workerCnt) == 0 && deref(m.taskCnt) == 0 && deref(m.microTaskCnt) == 0
+
+// the completion channel is closed exactly when stop was requested, no lifecycle routine is
+// running, all three work counters are zero and completion was not signalled before; then
+// (and only then) the completed flag is taken. Nothing else changes.
 //@ func (*Module).checkIfStopComplete
-//@   trusted
+//@   requires cntOK(m)
+//@   assume deref(m.stopCompleted) != 0 || m.stopComplete != nil
+//@   modifies deref(m.stopCompleted)
+//@   ghost var closed int = 0
+//@   at close assert chan == m.stopComplete
+//@   at close ghost closed = closed + 1
+//@   ensures closed == ((old(stopDue(m)) && old(deref(m.stopCompleted)) == 0) ? 1 : 0)
+//@   ensures old(stopDue(m)) ==> deref(m.stopCompleted) != 0
+//@   ensures !old(stopDue(m)) ==> deref(m.stopCompleted) == old(deref(m.stopCompleted))
+
+//@ func (*Module).Status
 //@   requires m != nil
 //@   pure
+//@   ensures r0 == m.status
+
+// a module whose stop flag is set is never "online soon": no new tasks, events or hooks for it
+//@ func (*Module).OnlineSoon
+//@   requires cntOK(m) && m.enabled != nil && m.enabledAsDependency != nil
+//@   pure
+//@   ensures isSet(m.stopFlag) ==> !r0
+
+//@ func (*Module).IsStopping
+//@   requires cntOK(m)
+//@   pure
+//@   ensures r0 == isSet(m.stopFlag)
+
+// m.cancelCtx only ever holds the cancel function of the module context
+//@ func field.Module.cancelCtx
+//@   trusted
+//@   pure
+
+// the stop sequence: mark a lifecycle routine as running, raise the stop flag, cancel the
+// context, only then start the stop routine; wait on the completion channel (or the stop
+// timeout); only after the wait report the module offline, then send the report
+//@ func (*Module).stopAllTasks
+//@   requires cntOK(m) && reports != nil
+//@   nopanic off
+//@   modifies *
+//@   ghost var step int = 0
+//@   at call (*AtomicBool).Set#0 assert arg0 == m.ctrlFuncRunning && step == 0
+//@   at call (*AtomicBool).Set#0 ghost step = 1
+//@   at call (*AtomicBool).Set#1 assert arg0 == m.stopFlag && step == 1
+//@   at call (*AtomicBool).Set#1 ghost step = 2
+//@   at call dynamic#0 assert step == 2
+//@   at call dynamic#0 ghost step = 3
+//@   at call (*Module).startCtrlFn assert step == 3 && arg2 == m.stopFn
+//@   at call (*Module).startCtrlFn ghost step = 4
+//@   at call time.After assert arg0 == moduleStopTimeout
+//@   at select#0 assert step == 4 && chan0 == m.stopComplete
+//@   at select#0 ghost step = 5
+//@   at store status assert step == 5 && value == StatusOffline
+//@   at store status ghost step = 6
+//@   at send reports assert step == 6
+//@   at send reports ghost step = 7
+//@   at return assert step == 7
+
+// stop: only an online module is stopped; the completion channel is renewed and the
+// completed flag cleared before the stop sequence starts
+//@ func (*Module).stop
+//@   requires cntOK(m) && reports != nil
+//@   nopanic off
+//@   modifies *
+//@   ghost var was uint8 = 0
+//@   at after (*RWMutex).Lock ghost was = m.status
+//@   at go (*Module).stopAllTasks assert was == StatusOnline && m.status == StatusStopping && !isSet(m.stopCompleted) && fresh(m.stopComplete) && arg0 == m && arg1 == reports
+
+// the shutdown pass returns only when a report was received for every stop it started,
+// and it starts a stop only for a module that is ready to stop
+//@ func stopModules
+//@   nopanic off
+//@   modifies *
+//@   ghost var ready uint8 = 0
+//@   at after (*Module).readyToStop ghost ready = ret0
+//@   at call (*Module).stop assert ready == statusReady
+//@   at recv assert chan == reports
+//@   at return assert reportCnt >= execCnt
+//@   loop 0 invariant true
+//@   loop 1 invariant true
+//@   loop 2 invariant true
+
+// hooks only run for hooking modules that are online soon
+//@ func (*Module).processEventTrigger
+//@   nopanic off
+//@   modifies *
+//@   ghost var onl bool = false
+//@   ghost var who *Module = nil
+//@   at after (*Module).OnlineSoon ghost onl = ret0
+//@   at after (*Module).OnlineSoon ghost who = arg0
+//@   at go (*Module).runEventHook assert onl && arg1 != nil && who == arg1.hookingModule
+//@   loop 0 invariant true
+
+// a module becomes ready to stop only when it is online and no module depending on it is above offline
+//@ func (*Module).readyToStop
+//@   requires cntOK(m) && m.enabled != nil && m.enabledAsDependency != nil
+//@   requires forall k int :: soff(m.depReverse) <= k && k < soff(m.depReverse) + len(m.depReverse) ==> elems(m.depReverse)[k] != nil
+//@   ensures r0 == statusReady ==> m.status == StatusOnline && (forall k int :: soff(m.depReverse) <= k && k < soff(m.depReverse) + len(m.depReverse) ==> elems(m.depReverse)[k].status <= StatusOffline)
+//@   loop 0 invariant rangeindex >= -1 && rangeindex <= 1<<48 && m.status == StatusOnline && (forall k int :: soff(m.depReverse) <= k && k <= soff(m.depReverse) + rangeindex ==> elems(m.depReverse)[k].status <= StatusOffline)
+
+// a task created for a stopped (or never started) module is born cancelled and has no function;
+// otherwise its context derives from the module context
+//@ func (*Module).newTask
+//@   requires cntOK(m) && m.enabled != nil && m.enabledAsDependency != nil
+//@   at call context.WithCancel assert arg0 == m.Ctx
+//@   ensures r0 != nil && fresh(r0) && r0.module == m
+//@   ensures isSet(m.stopFlag) || isnil(m.Ctx) ==> r0.canceled && r0.taskFn == nil
+
+//@ func (*Task).isActive
+//@   requires t != nil && t.module != nil && cntOK(t.module) && t.module.enabled != nil && t.module.enabledAsDependency != nil
+//@   pure
+//@   ensures t.canceled || isSet(t.module.stopFlag) ==> !r0
+
+// events are only processed for a module that is online soon; hooks only run for hooking modules that are
+//@ func (*Module).TriggerEvent
+//@   requires cntOK(m) && m.enabled != nil && m.enabledAsDependency != nil
+//@   ghost var onl bool = false
+//@   at after (*Module).OnlineSoon ghost onl = ret0
+//@   at go (*Module).processEventTrigger assert onl && arg0 == m
 
 // runWorker: the panic of fn never leaves; it comes back as a reported *ModuleError carrying the panic value
 //@ func (*Module).runWorker
@@ -43,6 +164,7 @@ package modules
 //@   ghost var reported *ModuleError = nil
 //@   ghost var made *ModuleError = nil
 //@   at after dynamic ghost fnErr = ret0
+//@   at call dynamic assert arg0 == m.Ctx
 //@   at after (*Module).NewPanicError ghost pv = arg3
 //@   at after (*Module).NewPanicError ghost made = ret0
 //@   at call (*ModuleError).Report ghost reported = arg0
@@ -65,7 +187,10 @@ package modules
 //@   at call atomic.AddInt32 assert arg0 == m.workerCnt
 //@   at call atomic.AddInt32 ghost net = net + arg1
 //@   at after (*Module).runWorker ghost inner = ret0
-//@   ensures m != nil ==> net == 0 && r0 == inner
+//@   ghost var chk int = 0
+//@   at call (*Module).checkIfStopComplete assert net == 0 && arg0 == m
+//@   at call (*Module).checkIfStopComplete ghost chk = chk + 1
+//@   ensures m != nil ==> net == 0 && r0 == inner && chk == 1
 //@   ensures m == nil ==> r0 != nil
 
 // service workers: net contribution 0, and the loop is left only when the worker ended without
@@ -89,8 +214,11 @@ package modules
 //@   at select ghost selected = 1
 //@   at return assert stopping || lastErr == nil || cancelled || selected == 1
 //@   at return assert typeIs(lastErr, *ModuleError) ==> stopping || selected == 1
-//@   ensures net == 0
-//@   loop 0 invariant net == 1
+//@   ghost var chk int = 0
+//@   at call (*Module).checkIfStopComplete assert net == 0 && arg0 == m
+//@   at call (*Module).checkIfStopComplete ghost chk = chk + 1
+//@   ensures net == 0 && chk == 1
+//@   loop 0 invariant net == 1 && chk == 0
 
 // lifecycle control functions: a panic is recovered, reported, and turned into exactly one error on the result channel
 //@ func (*Module).startCtrlFn$1
@@ -107,7 +235,11 @@ package modules
 //@   at send ghost sentNonNil = (value != nil)
 //@   at call (*ModuleError).Report ghost reported = true
 //@   at call (*AtomicBool).UnSet ghost unset = true
-//@   ensures sent == 1 && unset
+//@   at call (*AtomicBool).UnSet assert arg0 == m.ctrlFuncRunning
+//@   ghost var chk int = 0
+//@   at call (*Module).checkIfStopComplete assert unset && arg0 == m
+//@   at call (*Module).checkIfStopComplete ghost chk = chk + 1
+//@   ensures sent == 1 && unset && chk == 1
 //@   ensures panicked ==> sentNonNil && reported
 
 // t.cancelCtx only ever holds the cancel function of a context (context.WithCancel): no effect on module state
@@ -127,7 +259,11 @@ package modules
 //@   ghost var net int32 = 0
 //@   at call atomic.AddInt32 ghost net = net + arg1
 //@   at call (*ModuleError).Report ghost reported = true
-//@   ensures net == 0
+//@   ghost var chk int = 0
+//@   at call (*Module).checkIfStopComplete assert net == 0 && arg0 == t.module
+//@   at call (*Module).checkIfStopComplete ghost chk = chk + 1
+//@   at call context.WithCancel assert arg0 == t.module.Ctx
+//@   ensures net == 0 && chk == 1
 //@   ensures panicked ==> reported
 //@   at return assert !t.executing
 
@@ -141,7 +277,10 @@ package modules
 //@   at call atomic.AddInt32#0 ghost netMod = netMod + arg1
 //@   at call atomic.AddInt32#1 assert arg0 == microTasks
 //@   at call atomic.AddInt32#1 ghost netGlobal = netGlobal + arg1
-//@   ensures netMod == -1 && netGlobal == -1
+//@   ghost var chk int = 0
+//@   at call (*Module).checkIfStopComplete assert netMod == -1 && arg0 == m
+//@   at call (*Module).checkIfStopComplete ghost chk = chk + 1
+//@   ensures netMod == -1 && netGlobal == -1 && chk == 1
 
 // microtasks: the panic is returned as module error to the blocking variants; the per-module
 // count goes +1 then -1 via concludeMicroTask on every exit
@@ -157,6 +296,7 @@ package modules
 //@   ghost var inc int32 = 0
 //@   ghost var concluded int = 0
 //@   at after dynamic ghost fnErr = ret0
+//@   at call dynamic assert arg0 == m.Ctx
 //@   at call atomic.AddInt32 assert arg0 == m.microTaskCnt
 //@   at call atomic.AddInt32 ghost inc = inc + arg1
 //@   at call (*Module).concludeMicroTask ghost concluded = concluded + 1
